@@ -54,6 +54,8 @@ class Prop(PropBase):
             ports = rng.choice(['distinct', 'distinct', 'equal', 'difop0'])
             if gi < 2:
                 ports = ['equal', 'difop0'][gi]     # single-socket groups: sent as one burst before start() (see below)
+            if gi == 2:
+                ports, vlan = 'distinct', 1         # tagged frames and a separate DIFOP filter
             msop = base + 40 + 3 * gi
             difop = {'distinct': msop + 1, 'equal': msop, 'difop0': 0}[ports]
             repeat = (gi % 5 == 4) and not l.jumbo
